@@ -144,9 +144,22 @@ class Heap:
         h.tag = self.tag
         h.floor = self.floor
         h.axioms = self.axioms
+        h.framed = getattr(self, "framed", None)
         return h
 
     def field(self, name):
+        if name not in self.fld and getattr(self, "framed", None) is not None:
+            # a heap produced by a framed havoc: fields first mentioned later are framed the same way
+            old, keep_fld, keep_has, base = self.framed
+            r = z3.Int("r!fh")
+            bf = base.field(name)
+            bh = base.hasf(name)
+            self.fld[name] = z3.Lambda([r], z3.If(keep_fld(r, name), z3.Select(old.field(name), r), z3.Select(bf, r)))
+            self.has[name] = z3.Lambda([r], z3.If(keep_has(r, name), z3.Select(old.hasf(name), r), z3.Select(bh, r)))
+            for a in base.axioms:
+                if not any(a.eq(b) for b in self.axioms):
+                    self.axioms.append(a)
+            return self.fld[name]
         if name not in self.fld:
             self.fld[name] = z3.Const(f"{self.tag}.fld.{name}", z3.ArraySort(I, V))
             self.has[name] = z3.Const(f"{self.tag}.has.{name}", z3.ArraySort(I, B))
@@ -216,10 +229,15 @@ class Sq:
     @staticmethod
     def from_tuple(t):
         """Sq of a V.tup value"""
-        seq = z3.simplify(V.items(t))
-        units = _seq_units(seq)
+        raw = V.items(t)
+        if z3.is_app(t) and t.decl().kind() == z3.Z3_OP_DT_CONSTRUCTOR and t.num_args() == 1:
+            raw = t.arg(0)
+        units = _seq_units_raw(raw)
+        if units is None:
+            units = _seq_units(z3.simplify(raw))
         if units is not None:
             return Sq.of(units)
+        seq = z3.simplify(raw)
         return Sq(TupToArr(seq), z3.Length(seq))
 
     def at(self, i):
@@ -273,6 +291,23 @@ class Sq:
             return z3.And([a == b for a, b in zip(ua, ub)]) if ua else z3.BoolVal(True)
         return z3.And(self.n == other.n,
                       z3.ForAll([i], z3.Implies(z3.And(i >= 0, i < self.n), self.at(i) == other.at(i))))
+
+
+def _seq_units_raw(seq):
+    out = []
+
+    def walk(t):
+        if z3.is_app(t):
+            k = t.decl().kind()
+            if k == z3.Z3_OP_SEQ_EMPTY:
+                return True
+            if k == z3.Z3_OP_SEQ_UNIT:
+                out.append(t.arg(0))
+                return True
+            if k == z3.Z3_OP_SEQ_CONCAT:
+                return all(walk(c) for c in t.children())
+        return False
+    return out if walk(seq) else None
 
 
 def _seq_units(seq):
